@@ -84,6 +84,7 @@ class Sup:
         self.hard = ctx.t0 + ctx.pick(8 * 60, 20 * 60)          # hard stop
         self.soft = ctx.t0 + ctx.pick(4 * 60, 12 * 60)          # no new optional stage after this
         self.hang_confirmed = False
+        self.tight = False
         self.not_completed, self.skipped = [], []
         self._tl = threading.local()      # children are also run from worker threads
         ctx.cov["stages_not_completed"] = self.not_completed
@@ -96,6 +97,12 @@ class Sup:
     @last.setter
     def last(self, v):
         self._tl.last = v
+
+    def tighten(self):
+        """a source fact is broken: the whole check must end within ~3 minutes"""
+        self.hard = min(self.hard, self.ctx.t0 + 175)
+        self.soft = min(self.soft, self.ctx.t0 + 110)
+        self.tight = True
 
     def left(self):
         return self.hard - time.time() - RESERVE
@@ -118,6 +125,8 @@ class Sup:
         ctx = self.ctx
         own = {"replay": 240, "explore": 200, "stress": 120, "launch": 120, "probe": 60}.get(args[0] if args else "", timeout)
         own *= ctx.pick(1, 4) * (2 if env and env.get("C03_PATIENCE") else 1)
+        if self.tight:
+            own = min(own, {"replay": 45, "explore": 30}.get(args[0] if args else "", own))
         cap = min(timeout, own, self.left())
         label = "%s %s%s" % (os.path.basename(exe), " ".join(args)[:60], (" [%s]" % ",".join("%s=%s" % kv for kv in sorted(env.items()))) if env else "")
         self.last = {"label": label, "killed": False, "stalled_s": 0}
@@ -292,7 +301,7 @@ def tight_family(ctx, exe, boosted):
     loop thread.  Oracle by counters: unchanged between 'stop() returned' and the next 'start() called' (sampled three times,
     re-sampled on a change); advancing after start().  Time-boxed; suspected findings are confirmed on a second run."""
     rows = []
-    budget = ctx.pick(2500, 20000) * (6 if boosted else 1)
+    budget = ctx.pick(2500, 20000) if not boosted else ctx.pick(6000, 30000)
     for method, n in (("THREAD", 2), ("TASK", 2), ("THREAD", 8), ("TASK", 8)):
         if not ctx.sup.go("tight-cycle stress %s/%d" % (method, n), optional=False):
             continue
@@ -338,6 +347,82 @@ def tight_family(ctx, exe, boosted):
                           "(kernel state S, no CPU time) and the counter did not advance, %d time(s); confirmed on a second run" % (method, n, lost),
                           dict(cfg, observed=m.group(0), first_run=first, required=ORACLE_TEXT["start_progress"][1]))
     ctx.cov["stress_tight"] = rows
+
+
+LONG_RE = (r"LONG method=(\w+) nthreads=(\d+) num_tasking_threads=(-?\d+) owns_thread=(\d) durations_tested=(\d+) stop_called_mid_body=(\d+) "
+           r"stop_returned_while_inside=(\d+) dtor_tested=(\d+) dtor_returned_while_inside=(\d+) first_bad_body_us=(-?\d+) "
+           r"body_exit_after_return_us=(-?\d+) what=\[([^\]]*)\] wall_ms=(\d+)")
+
+
+def long_family(ctx, exe):
+    """body durations spanning decades (1 us .. 1.2 s); stop() -- and for a thread-owning loop the destructor -- is called while the
+    body is inside (the body's own atomic says so).  Oracle on state only: when the call returns the body's flag says NOT inside.
+    Public interface only."""
+    rows = []
+    max_us = ctx.pick(1200000, 3000000)
+    for method, n in (("THREAD", 2), ("TASK", 8)):
+        if not ctx.sup.go("long-body stress %s/%d" % (method, n), optional=False):
+            continue
+        args = ["stress", "long", method, str(n), str(max_us), str(ctx.seed), "8000"]
+        rc, out, err = ctx.run_exe(exe, args, timeout=BIG)
+        m = re.search(LONG_RE, out)
+        if ctx.sup.killed():
+            continue
+        cfg = {"mode": "stress-long", "method": method, "nthreads": n, "max_body_us": max_us, "rerun": "%s %s" % (exe, " ".join(args))}
+        first = m.group(0) if m else out.strip()[-400:]
+        if ((not m) or int(m.group(7)) > 0 or int(m.group(9)) > 0) and ctx.sup.patient():
+            ctx.log("long-body stress %s/%d: %s -- confirming on a second run" % (method, n, first[:300]))
+            rc, out, err = ctx.run_exe(exe, args, timeout=BIG, env=PATIENT)
+            m2 = re.search(LONG_RE, out)
+            ctx.cov.setdefault("stress_reruns", []).append({"config": cfg, "first": first, "second": m2.group(0) if m2 else out.strip()[-400:]})
+            if ctx.sup.killed():
+                continue
+            if m and (int(m.group(7)) or int(m.group(9))) and not (m2 and (int(m2.group(7)) or int(m2.group(9)))):
+                ctx.broken.append("long-body stress %s/%d: a call returned while the body was inside in one run (%s) but not in the confirmation run"
+                                  % (method, n, first))
+            m = m2
+        if not m:
+            if "STRESS-HANG" in out:
+                ctx.sup.hang_confirmed = True
+                ctx.violation("long-body stress (%s launch, %d threads): no progress at all for 120 s, confirmed on a second run" % (method, n),
+                              dict(cfg, observed=out.strip()[-800:], required="start(), stop() and the destructor terminate"))
+            elif rc != 124:
+                ctx.broken.append("long-body stress %s/%d gave no result (rc=%s): %s" % (method, n, rc, out[-200:]))
+            continue
+        ctx.count(int(m.group(5)) + int(m.group(8)))
+        rows.append({"method": method, "nthreads": n, "owns_thread": int(m.group(4)), "durations_tested": int(m.group(5)),
+                     "stop_called_mid_body": int(m.group(6)), "stop_returned_while_inside": int(m.group(7)), "dtor_tested": int(m.group(8)),
+                     "dtor_returned_while_inside": int(m.group(9)), "wall_ms": int(m.group(13))})
+        if int(m.group(6)) >= 4:
+            ctx.nontriv("long %s %d" % (method, n))
+        if int(m.group(7)) or int(m.group(9)):
+            which = "stop()" if int(m.group(7)) else "~AsyncLoop()"
+            ctx.violation("%s launch, tasking system of %d threads, body invocation of %s us in flight: %s; the body left %s us AFTER the call "
+                          "returned (body's own inside-flag read right after the return; confirmed on a second run)"
+                          % (method, n, m.group(10), m.group(12), m.group(11)),
+                          dict(cfg, body_duration_us=int(m.group(10)), observed=m.group(0), first_run=first,
+                               required=ORACLE_TEXT["stop_safe"][1] if which == "stop()" else ORACLE_TEXT["dtor_safe"][1]))
+    ctx.cov["stress_long_body"] = rows
+
+
+def stress_stage(ctx, exe, exe_st, boosted):
+    """the unforced families.  boosted (a source fact is broken): larger boxes, in total <= 60 s"""
+    if exe_st:
+        long_family(ctx, exe_st)
+        tight_family(ctx, exe_st, boosted)
+    st = []
+    n_plain, n_inj = ctx.pick(20000, 200000), ctx.pick(4000, 30000)
+    budget = ctx.pick(5000, 60000)    # ms per configuration (time box; the number of cycles done is reported)
+    if boosted:
+        n_plain, n_inj, budget = n_plain * 10, n_inj * 10, ctx.pick(7000, 60000)
+    for l in ("T", "K"):
+        for (n, inj) in ((n_plain, 0), (n_inj, 1)):
+            if not ctx.sup.go("stress launch %s inject=%d" % (l, inj), optional=False):
+                continue
+            s = stress(ctx, exe, l, n, ctx.seed, inj, budget)
+            if s:
+                st.append(s)
+    ctx.cov["stress"] = st
 
 
 METHODS, SIZES = ("THREAD", "TASK", "AUTO"), (0, 2, 8)     # 0 = tasking system not initialised
@@ -488,6 +573,10 @@ def run(ctx):
                     ctx.cxx(["harness.cpp"], "harness_tbb", backend="tbb", sanitize=None))
             rc, out, m = launch_once(ctx, exe2, doc["method"], doc["nthreads"], {"C03_NOHOLD": "1"} if doc.get("nohold") else None)
             print(out.strip() + "\n" + getattr(ctx, "c03_err", "")[:1500])
+        elif doc.get("mode") == "stress-long":
+            exe3 = ctx.cxx(["stress.cpp"], "stress_tbb", backend="tbb", sanitize=None, opt="-O2")
+            rc, out, err = ctx.run_exe(exe3, ["stress", "long", doc["method"], str(doc["nthreads"]), str(doc["max_body_us"]), "1", "8000"], timeout=BIG)
+            print(out.strip())
         elif doc.get("mode") == "stress-tight":
             exe3 = ctx.cxx(["stress.cpp"], "stress_tbb", backend="tbb", sanitize=None, opt="-O2")
             rc, out, err = ctx.run_exe(exe3, ["stress", "tight", doc["method"], str(doc["nthreads"]), "100000000", str(doc["stress_seed"]),
@@ -552,14 +641,20 @@ def run(ctx):
         ctx.log("harness.cpp does not build against this tree -- forced schedules impossible; running the public-interface stress family")
         ctx.cov["forced"] = "NOT POSSIBLE: harness/C03/harness.cpp (private state, hooks) does not compile against this tree"
         if exe_st:
+            long_family(ctx, exe_st)
             tight_family(ctx, exe_st, True)
         return
+    if boosted:
+        # the correspondence is known to be broken; what is left to do is to find a concrete failing input: the cheap,
+        # time-boxed unforced families first (<= 60 s), then the forced stages with what remains of a 3-minute budget
+        ctx.sup.tighten()
+        stress_stage(ctx, exe, exe_st, True)
     rc, out, err = ctx.run_exe(exe, ["probe"], timeout=BIG)
     hooks = "HOOKS=1" in out
     ctx.cov["hooks_present"] = hooks
 
     # ------------------------------------------------------------------ forced part
-    if hooks:
+    if hooks and ctx.sup.go("forced replay of the model's schedules (OpenMP backend)", optional=False):
         hdr, cases = {}, []
         for l in ("T", "K"):
             rc, out, err = vlib.sh2([model, "paths", l, "repaired"], timeout=BIG)
@@ -595,7 +690,7 @@ def run(ctx):
         if (mism or crashes) and ctx.sup.patient():
             # second opinion before anything is reported, 4x patience: first the schedules that really differ (at most 40);
             # those the harness skipped after 3 time-outs only if the first group turns out to be spurious
-            real = sorted({i for (i, lab, il, ml) in mism if il != "SKIPPED"})[:40]
+            real = sorted({i for (i, lab, il, ml) in mism if il != "SKIPPED"})[:(8 if ctx.sup.tight else 40)]
             rest = sorted({i for (i, lab, il, ml) in mism if il == "SKIPPED"})
             if crashes:
                 n0 = min(n for (_, _, n) in crashes.values())
@@ -782,7 +877,7 @@ def run(ctx):
         if corr and not ctx.violations:
             ctx.broken.append("correspondence model vs AsyncLoop under forced schedules: %d of %d schedules differ; first: %s"
                               % (len(corr), len(cases), corr[0][:400]))
-    else:
+    elif not hooks:
         msg = ("this tree has no RKCOMMON_VERIF scheduling points in AsyncLoop.h (hook-1.patch not applied): forced replay of the model's "
                "schedules and the implementation-side exploration were NOT possible; only unforced and delay-injected stress was run")
         ctx.log("NOTE: " + msg)
@@ -793,21 +888,8 @@ def run(ctx):
     launch_memory_safety(ctx, exe_asan)
 
     # ------------------------------------------------------------------ unforced stress
-    if exe_st:
-        tight_family(ctx, exe_st, boosted)
-    st = []
-    n_plain, n_inj = ctx.pick(20000, 200000), ctx.pick(4000, 30000)
-    budget = ctx.pick(5000, 60000) * (4 if boosted else 1)    # ms per configuration (time box; the number of cycles done is reported)
-    if boosted:
-        n_plain, n_inj = n_plain * 10, n_inj * 10
-    for l in ("T", "K"):
-        for (n, inj) in ((n_plain, 0), (n_inj, 1)):
-            if not ctx.sup.go("stress launch %s inject=%d" % (l, inj), optional=False):
-                continue
-            s = stress(ctx, exe, l, n, ctx.seed, inj, budget)
-            if s:
-                st.append(s)
-    ctx.cov["stress"] = st
+    if not boosted:
+        stress_stage(ctx, exe, exe_st, False)
     if ctx.thorough():
         tsan = ctx.cxx(["harness.cpp"], "harness_tsan", backend="omp", sanitize="tsan") if ctx.sup.go("TSan stress") else None
         if tsan:
